@@ -89,10 +89,8 @@ def run_scenario(model: Model, s):
 
 def scenarios():
     from . import scenarios as sc
-    try:
-        from . import scenarios2  # noqa: F401  (further catalogues register themselves)
-    except ImportError:
-        pass
+    from . import scenarios2  # noqa: F401  (further catalogues register themselves)
+    from . import scenarios3  # noqa: F401
     return sc.SCENARIOS
 
 
